@@ -30,7 +30,7 @@ ASSUMPTIONS = ['vt.refsem truth tables; "gate for gate up to renaming" is checke
 FORMAT_TYPES = ['NOT', 'AND', 'OR', 'NOR', 'NAND', 'XOR', 'NXOR', 'IFF', 'GEQ', 'GT', 'LEQ', 'LT', 'ALWAYS_TRUE', 'ALWAYS_FALSE']
 REQUIRED = {'mon:encode_circuit.roundtrip_ok': 200, 'mon:encode_circuit.codec_error': 20, 'domain:in': 150,
             'domain:in/shuffled_storage': 30, 'domain:in/const2': 10, 'domain:out': 50, 'bitio_programs': 100,
-            'dict_roundtrips': 100, 'dict_unicode': 20, 'dict_prefixes_rejected': 500, 'dict_extensions_rejected': 50,
+            'dict_roundtrips': 100, 'dict_unicode': 20, 'dict_odd_edge_codepoint': 20, 'dict_prefixes_rejected': 500, 'dict_extensions_rejected': 50,
             'db_roundtrip:BytesIO': 5, 'db_roundtrip:bin': 3, 'db_roundtrip:xz': 3}
 
 CUR = {'ctx': None, 'case': None}
@@ -291,6 +291,8 @@ def check_dict(case, ctx):
         ctx.count('dict_roundtrips')
         if any(ord(ch) > 127 for k in d for ch in k):
             ctx.count('dict_unicode')
+        if any(k[:1] in _ODD or k[-1:] in _ODD for k in d):
+            ctx.count('dict_odd_edge_codepoint')
         cuts = range(len(data)) if len(data) <= 300 else sorted(random.Random(case['rseed']).sample(range(len(data)), 200))
         for cut in cuts:
             try:
@@ -337,6 +339,11 @@ def check_db(case, ctx):
             with monitor.suspended():
                 c = netgen.build(net, rng=rng, shuffle_storage=rng.random() < 0.3)
             label = 'lbl_%d_é' % i if rng.random() < 0.3 else None
+            if label is not None and rng.random() < 0.4:
+                label = _rand_key(rng) + label if rng.random() < 0.5 else label[4:] + _rand_key(rng)
+                if label in stored or len(label.encode('utf-8')) > 65535:  # outside the format's key size limit
+                    continue
+                ctx.count('db_odd_label')
             try:
                 db.add_circuit(c, label)
             except Exception as e:
@@ -381,7 +388,24 @@ def check_db(case, ctx):
         shutil.rmtree(tmp, ignore_errors=True)
 
 
+_ODD = ['\ufeff', '\x00', '\n', '\r', '\t', ' ', '\x7f', '\x80', '\xa0', '\u0301', 'e\u0301', '\u200b', '\u2028', '\ud7ff',
+        '\ue000', '\ufffd', '\uffff', '\U00010000', '\U0010ffff', '\\', '"', "'", '%', '/']
+
+
+def _rand_cp(rng):
+    while True:
+        cp = rng.randrange(0x110000) if rng.random() < 0.5 else rng.randrange(0x3000)
+        if not 0xD800 <= cp <= 0xDFFF:
+            return chr(cp)
+
+
 def _rand_key(rng):
+    r = rng.random()
+    if r < 0.25:
+        # code points that text layers like to treat specially (byte order mark, NUL, new lines, combining marks,
+        # plane boundaries), at any position, and arbitrary code points
+        return ''.join(rng.choice(_ODD) if rng.random() < 0.5 else rng.choice(['a', 'cell', '0', _rand_cp(rng)])
+                       for _ in range(rng.randint(1, 4)))
     r = rng.random()
     if r < 0.5:
         return ''.join(rng.choice('01_abcXYZ') for _ in range(rng.randint(0, 12)))
